@@ -6,7 +6,8 @@
 From Coq Require Import String.
 From Http Require Import Model.Bytes Model.Utf8 Model.Num Model.Headers Model.Request
      Spec.HeaderGrammar Spec.ChunkedGrammar Spec.RequestGrammar
-     Proofs.ReqGrammar Proofs.HeaderGrammarProofs Proofs.PrefixNeedsMore Proofs.Timely.
+     Spec.Rejections Proofs.ReqGrammar Proofs.HeaderGrammarProofs Proofs.PrefixNeedsMore Proofs.Timely
+     Proofs.HeaderRejects Proofs.ReqRejects.
 
 (* the grammar, pinned (Spec/RequestGrammar.v, Spec/HeaderGrammar.v) *)
 Check (eq_refl : @request_line = fun meth tstr => meth ++ [SP] ++ tstr ++ [SP] ++ HTTP11).
@@ -66,6 +67,33 @@ Theorem C03_more_input_only_while_unfinished :
 Proof. exact request_incomplete_means_unfinished. Qed.
 Print Assumptions C03_more_input_only_while_unfinished.
 
+(* rejections: a fresh parser rejects an input with category e exactly when the input has a first
+   offending element of that category (Spec/Rejections.v: request_defect -- unterminated or
+   terminated request line too long; line not text; size exceeded; no method delimiter; empty
+   method; no target delimiter; empty target; invalid URI; wrong protocol; then the first
+   defective header line with its category; bad Content-Length; total or declared size over the
+   maximum).  Every constructor of request_defect needs only the request line and header block
+   (or less) to be present, so the rejection comes at the latest when they are complete. *)
+Theorem C03_rejection_names_first_defect :
+  forall (uri : Type) (uri_parse : bytes -> option uri) cfg s e,
+    (exists st, req_parse uri uri_parse cfg req_init s = (st, Reject e)) <->
+    request_defect uri uri_parse cfg s e.
+Proof. exact request_reject_iff. Qed.
+Print Assumptions C03_rejection_names_first_defect.
+
+(* the same for the header block on its own: well-formed fields, then the first defective line *)
+Theorem C03_header_rejection_names_first_defect :
+  forall lim hs0 s e, hdr_parse lim hs0 s = HError e <-> block_defect lim s e.
+Proof. exact hdr_parse_reject_iff. Qed.
+Print Assumptions C03_header_rejection_names_first_defect.
+
+(* the shape categories of the request line are exhaustive and exclusive with acceptance *)
+Theorem C03_request_line_shape :
+  forall (uri : Type) (uri_parse : bytes -> option uri) line e,
+    parse_request_line uri uri_parse line = inr e <-> rshape_defect uri uri_parse line e.
+Proof. exact parse_request_line_reject. Qed.
+Print Assumptions C03_request_line_shape.
+
 (* the header block alone: exactly the field grammar, with unfolding and trimming *)
 Theorem C03_header_block_exact :
   forall lim hs0 s hs c,
@@ -96,3 +124,17 @@ Example C03_example :
   | _ => False
   end.
 Proof. vm_compute. repeat split. Qed.
+
+(* non-vacuity of the rejection theorem: one defect per category, each derived from the declarative
+   side through the theorem *)
+Example C03_rejection_examples :
+  let D := request_defect bytes idp default_cfg in
+  D (str "GET  / HTTP/1.1"%string ++ CRLF) ERequestLineNoTargetOrExtraWhitespace /\
+  D (str "GET / HTTP/1.0"%string ++ CRLF) ERequestLineProtocol /\
+  D (str "GET / HTTP/1.1"%string ++ CRLF ++ str "A: b"%string ++ CRLF ++ str "Bad Name: x"%string ++ CRLF)
+    (EHeaders HBadName) /\
+  D (str "GET / HTTP/1.1"%string ++ CRLF ++ str "Content-Length: +5"%string ++ CRLF ++ CRLF) EInvalidContentLength /\
+  D (str "GET / HTTP/1.1"%string ++ CRLF ++ str "Content-Length: 99999999"%string ++ CRLF ++ CRLF) EMessageTooLong.
+Proof.
+  cbv zeta. repeat split; apply C03_rejection_names_first_defect; eexists; vm_compute; reflexivity.
+Qed.
